@@ -102,6 +102,8 @@ theorem digs_zeros (n : Nat) : Digs (zeros n) := by
   simp only [zeros, List.mem_replicate] at hd
   rw [hd.2]; exact B_pos
 
+instance (n : Nat) (a : List Nat) : Decidable (Wf n a) := by unfold Wf; exact inferInstance
+
 theorem wf_iff {n : Nat} {a : List Nat} : Wf n a ↔ a.length = n ∧ Digs a := Iff.rfl
 
 theorem wf_nil : Wf 0 [] := ⟨rfl, by simp⟩
